@@ -268,6 +268,13 @@ static void encode_imm_data_transfer(struct instr *instrc) {
     DO_NOT_PAD(instrc->cons, instrc->reduced_imm, MAX_UNSIGNED_32BIT);
     return;
   }
+  // a 32-bit register takes the low 32 bits of a negative immediate
+  if (instrc->cons > MAX_UNSIGNED_32BIT &&
+      ((instrc->opd[0].reg & MODE_MASK) == reg32 ||
+       (instrc->opd[0].reg & MODE_MASK) == ext32) &&
+      !instrc->mem_disp) {
+    DO_NOT_PAD(instrc->cons, instrc->reduced_imm, MAX_UNSIGNED_32BIT);
+  }
   if (instrc->cons <= MAX_UNSIGNED_32BIT) {
     if ((instrc->assembly_opt & NASM_MOV_IMM) && !instrc->mem_disp)
       nasm_register_size_optimize(instrc);
